@@ -108,7 +108,7 @@ def pTypedOp (s : String) : Option TypedOp :=
 
 /-- append the per-op script pieces to the persistent transport queues -/
 def extendTransport (t : Transport) (fields : List String) : Option Transport := do
-  let rs ← pList pReadEv (field "r" fields)
+  let rs ← pReadEvs (field "r" fields)
   let ws ← pList pWriteEv (field "w" fields)
   let fs ← pList pCtlEv (field "f" fields)
   let ss ← pList pCtlEv (field "s" fields)
@@ -291,7 +291,7 @@ def runOp (line : String) : Option String :=
   | ["crc", bs] => do pure (hex16 (calcCrc (← pBytes bs)))
   | ["reqlen", bs] => do pure (res optNat (requestPduLen (← pBytes bs)))
   | ["rsplen", bs] => do pure (res optNat (responsePduLen (← pBytes bs)))
-  | ["stream", codec, evs] => do streamOp codec (← pList pReadEv evs)
+  | ["stream", codec, evs] => do streamOp codec (← pReadEvs evs)
   | ["stream", codec] => streamOp codec []
   | ["accept", kind, setups] => do acceptOp (← pKind kind) setups false
   | ["accept", kind, setups, "abort"] => do acceptOp (← pKind kind) setups true
